@@ -336,15 +336,15 @@ def end_to_end(ctx, ok):
         # incremental feeding, the caller keeps feeding after an error
         for _ in range(6 if ctx.quick else 40):
             chunk = rng.choice([1, 7, 64, 333, 1000, 4096, 9613, max(1, len(data) // 3)])
-            if len(data) > 20000 and chunk < 64:
-                chunk = 4096
+            if len(data) > 20000 and chunk < 4096:
+                chunk = 4096        # try_init re-parses from the start at every feed: small chunks are quadratic
             if rng.random() < 0.5:
                 l = rng.choice([peak - 1, peak // 2, peak // 3, rng.randint(0, max(1, peak))])
                 lines.append(f"feeds {data.hex()} {max(0, l)} {chunk}"); meta.append((label, data, max(0, l), None, peak))
             else:
                 k = rng.randrange(max(1, allocs))
                 lines.append(f"feeds {data.hex()} {ample} {chunk} {k}"); meta.append((label, data, ample, k, peak))
-    outs = run_lines_robust([ctx.harness_bin("c13e")], lines, per_line_timeout=60, batch=50)
+    outs = run_lines_robust([ctx.harness_bin("c13e")], lines, per_line_timeout=180, batch=50)
     for (label, data, limit, k, peak), ln, o in zip(meta, lines, outs):
         o = o or "crash"
         ctx.case(("e2e", data, limit, k), nontrivial=True)
